@@ -1,4 +1,6 @@
 import OutrankModel.Lemmas.MIReal
+import OutrankModel.Lemmas.MITable
+import OutrankModel.Lemmas.MISpec
 /-!
 # C01 – the plain estimator equals the plug-in Shannon mutual information
 Statements only; proofs by reference to `Lemmas/`.
@@ -8,46 +10,46 @@ namespace MI
 /-- C01-1/2: with no correction and no subsampling the estimator terminates normally and returns exactly the plug-in MI. -/
 theorem estimator_eq_plugin (Y X : List Nat) (h : Y.length = X.length) (hn : 0 < X.length) :
     estimator realOps Y X 1 1 false = .ok (miPlugin Y X) := by
-  sorry
+  rw [estimator_plain Y X h, miPlugin_eq_sub Y X h hn]
 
 /-- the executable list-form specifications the driver evaluates are the finset forms -/
 theorem pluginL_eq (Y X : List Nat) (h : Y.length = X.length) : pluginL realOps Y X = miPlugin Y X := by
-  sorry
+  exact pluginL_real Y X
 theorem entropyL_eq (Y : List Nat) : entropyL realOps Y = entropy Y := by
-  sorry
+  exact entropyL_real Y
 theorem condEntropyL_eq (Y X : List Nat) (h : Y.length = X.length) : condEntropyL realOps Y X = condEntropy Y X := by
-  sorry
+  exact condEntropyL_real Y X
 
 /-- MI = H(Y) − H(Y|X) -/
 theorem plugin_eq_entropy_sub_cond (Y X : List Nat) (h : Y.length = X.length) (hn : 0 < X.length) :
     miPlugin Y X = entropy Y - condEntropy Y X := by
-  sorry
+  exact miPlugin_eq_sub Y X h hn
 
 /-- C01-3: symmetric in its two arguments. -/
 theorem plugin_symm (Y X : List Nat) (h : Y.length = X.length) : miPlugin Y X = miPlugin X Y := by
-  sorry
+  exact miPlugin_symm Y X h
 
 /-- C01-4: never negative (Gibbs). -/
 theorem plugin_nonneg (Y X : List Nat) (h : Y.length = X.length) (hn : 0 < X.length) : 0 ≤ miPlugin Y X := by
-  sorry
+  exact miPlugin_nonneg Y X h hn
 
 /-- C01-5: zero whenever either vector is constant. -/
 theorem plugin_const_right (Y X : List Nat) (h : Y.length = X.length) (hn : 0 < X.length)
     (hc : ∀ a ∈ X, ∀ b ∈ X, a = b) : miPlugin Y X = 0 := by
-  sorry
+  exact miPlugin_const_right Y X h hn hc
 theorem plugin_const_left (Y X : List Nat) (h : Y.length = X.length) (hn : 0 < X.length)
     (hc : ∀ a ∈ Y, ∀ b ∈ Y, a = b) : miPlugin Y X = 0 := by
-  sorry
+  exact miPlugin_const_left Y X h hn hc
 
 /-- C01-6: at most the smaller of the two entropies. -/
 theorem plugin_le_entropy (Y X : List Nat) (h : Y.length = X.length) (hn : 0 < X.length) :
     miPlugin Y X ≤ min (entropy Y) (entropy X) := by
-  sorry
+  exact miPlugin_le_min Y X h hn
 
 /-- C01-7: a vector scored against itself gives its entropy. -/
 theorem estimator_self (X : List Nat) (hn : 0 < X.length) :
     estimator realOps X X 1 1 false = .ok (entropy X) := by
-  sorry
+  rw [estimator_plain X X rfl, ← miPlugin_eq_sub X X rfl hn, miPlugin_self X hn]
 
 /-! non-vacuity -/
 example : ([0, 1, 0, 2] : List Nat).length = ([1, 1, 0, 0] : List Nat).length ∧ 0 < ([1, 1, 0, 0] : List Nat).length := by
